@@ -1995,7 +1995,8 @@ Theorem blob_merge_relocating_inv d W evict flt tids rw target nid split v :
   (gc_pruned v -> gc_pruned (fst r)).
 Proof.
   intros I POS IB FP SP [RW1 RW2] r. unfold r, blob_merge_relocating.
-  destruct (negb (tids_known tids v)); [cbn [fst snd]; repeat split; auto; try apply IB; lia|].
+  destruct (negb (tids_known tids v));
+    [cbn [fst snd]; split; [exact I|]; split; [exact IB|]; split; [lia|]; split; [exact POS | auto]|].
   destruct (run_stream W evict flt (merge_input tids v)) as [out log] eqn:HR.
   destruct (relocate target (b_blobs v) rw (bw_new nid) out) as [out' w] eqn:HL.
   unfold bw_finish. cbn [fst snd].
@@ -2048,7 +2049,7 @@ Proof.
     + exact W8.
     + intros f. apply gtot_of_log.
     + intros f Hf. apply in_app_or in Hf. destruct Hf as [Hf|Hf].
-      * specialize (RW1 f Hf). apply in_map_iff in RW1. destruct RW1 as (bf & <- & HI). now apply IB.
+      * specialize (RW1 f Hf). apply in_map_iff in RW1. destruct RW1 as (bf & <- & HI). apply (proj1 IB bf HI).
       * eapply dead_ids_below; eauto.
     + intros p Hp Hd. apply in_app_or in Hd. destruct Hd as [Hd|Hd].
       * apply in_app_or in Hp. destruct Hp as [Hp|Hp].
@@ -2071,4 +2072,42 @@ Proof.
   - destruct (with_merge_aux v tids (split out') (gc_of_log log) (bw_files w) (rw ++ dead_ids v)
                 nid (bw_next w) IB) as (_ & _ & C & _); [lia | | exact C].
     intros bf HI. specialize (W2 bf HI). lia.
+Qed.
+
+Lemma in_insert_N y x l : In y (insert_N x l) -> y = x \/ In y l.
+Proof.
+  induction l as [|z l IH]; cbn [insert_N].
+  - intros [<-|[]]. now left.
+  - destruct (x <? z); [intros [<-|H]; auto|]. destruct (x =? z); [auto|].
+    intros [<-|H]; [right; now left|]. destruct (IH H); [auto | right; now right].
+Qed.
+
+Lemma in_sort_dedup y l : In y (sort_dedup l) -> In y l.
+Proof.
+  unfold sort_dedup. induction l as [|x l IH]; cbn [fold_right]; [auto|].
+  intros H. apply in_insert_N in H. destruct H as [->|H]; [now left | right; auto].
+Qed.
+
+Lemma in_firstn' {A} n (l : list A) x : In x (firstn n l) -> In x l.
+Proof.
+  revert l. induction n as [|n IH]; intros [|y l]; cbn [firstn]; try contradiction.
+  intros [<-|H]; [now left | right; auto].
+Qed.
+
+Lemma in_linked_ids f ents : In f (linked_ids ents) <-> exists p, In p (ptrs ents) /\ pf p = f.
+Proof. unfold linked_ids, linked_of. apply keys_of_log. Qed.
+
+(** what [pick_blob_files_to_rewrite] returns is eligible (whatever the thresholds) *)
+Theorem pick_rewrite_ok sn sd an ad tids v :
+  reloc_ok tids (pick_rewrite sn sd an ad tids v) v.
+Proof.
+  unfold pick_rewrite. split.
+  - intros f Hf. apply filter_In in Hf. destruct Hf as [Hf _]. apply in_firstn' in Hf.
+    apply in_sort_dedup in Hf. apply filter_In in Hf. destruct Hf as [_ Hf].
+    destruct (find_file (b_blobs v) f) as [bf|] eqn:F; [|discriminate].
+    apply find_file_some in F. destruct F as [HI <-]. now apply in_map.
+  - intros p Hp Hf. apply filter_In in Hf. destruct Hf as [_ Hf].
+    apply negb_true_iff, memN_false in Hf. apply Hf. apply in_flat_map.
+    apply in_tptrs in Hp. destruct Hp as (t & Ht & Hp). exists t. split; [exact Ht|].
+    apply in_linked_ids. eauto.
 Qed.
